@@ -17,7 +17,7 @@ def run(ck):
     m = props.tlc_cached(ck, "MC_Input", "MC_Input" if ck.tier == "thorough" else "MC_Input_quick", ["YInput.tla", "YChars.tla"], workers=8)
     if m["violated"]:
         raise ToolError("MC_Input: refinement violated inside the model; see %s" % m["out"])
-    pool = props.full_pool(ck)
+    pool = props.full_pool(ck, rendered=True)
     out = ck.wd("c10.ndjson")
     s, crash = props.run_recorder(ck, ["c10", "--pool", pool, "--out", out], out)
     if crash:
